@@ -250,6 +250,74 @@ func VH_C14_diff(nt, nr int) {
 	verif.Cover("end")
 }
 
+// VH_C14_reconcile: the real Manager.reconcile on a node: catalogue of up to
+// two tables with ids (and optional recovery ids, as during a restore) from a
+// small domain, an arbitrary set of running shards from the same domain.
+// Afterwards exactly the catalogued ids that were not running have been
+// started (each once, under its own id) and exactly the running table shards
+// that are not catalogued have been stopped. Engine only.
+func VH_C14_reconcile() {
+	rs, lf, nh, base := kv.VHNewStore()
+	m := vhManagerOn(rs, 1)
+	m.nh = nh
+	cat := map[uint64]bool{}
+	for _, n := range vhNames[:2] {
+		if !verif.Bool() {
+			continue
+		}
+		t := Table{Name: n, ClusterID: tableIDsRangeStart + 1 + uint64(verif.Choice(4))}
+		if verif.Bool() {
+			t.RecoverID = tableIDsRangeStart + 1 + uint64(verif.Choice(4))
+			if verif.Bool() {
+				t.ClusterID = 0 // a restore of a table that did not exist before
+			}
+		}
+		b, _ := json.Marshal(&t)
+		v := verif.Uint64()
+		verif.Assume(v >= 1 && v < base)
+		kv.VHPutRaw(lf, kv.Pair{Key: storedTableName(n), Value: string(b), Ver: v})
+		if t.ClusterID != 0 {
+			cat[t.ClusterID] = true
+		}
+		if t.RecoverID != 0 {
+			cat[t.RecoverID] = true
+		}
+	}
+	run := map[uint64]bool{}
+	var running []uint64
+	for i := uint64(1); i <= 4; i++ {
+		if verif.Bool() {
+			run[tableIDsRangeStart+i] = true
+			running = append(running, tableIDsRangeStart+i)
+		}
+	}
+	verif.RunShardIDs(nh, running)
+
+	err := m.reconcile()
+	verif.Assert(err == nil, "reconcile succeeds")
+	started, stopped := map[uint64]int{}, map[uint64]int{}
+	for _, id := range verif.StartedShards(nh) {
+		started[id]++
+		verif.Assert(cat[id] && !run[id], "reconcile starts only catalogued shards that are not running")
+	}
+	for _, id := range verif.StoppedShards(nh) {
+		stopped[id]++
+		verif.Assert(run[id] && !cat[id], "reconcile stops only running table shards that are not catalogued")
+	}
+	for i := uint64(1); i <= 4; i++ {
+		id := tableIDsRangeStart + i
+		if cat[id] && !run[id] {
+			verif.Assert(started[id] == 1, "every catalogued shard (table or recovery id) that is not running is started once")
+			verif.Cover("start")
+		}
+		if run[id] && !cat[id] {
+			verif.Assert(stopped[id] == 1, "every running table shard that is not catalogued is stopped once")
+			verif.Cover("stop")
+		}
+	}
+	verif.Cover("end")
+}
+
 func VH_C14_vacuity() {
 	c := vhArbCatalogue()
 	m := c.manager(1)
